@@ -1,3 +1,3 @@
 #!/bin/sh
 # replays this counterexample against the real build
-cd /tmp/seedrepo_C01 && VERIF_SCRIPT=/verif/replays/C01/VHarnessRaceSwapSwap_3157514f_0/script.json VERIF_RAW_SALT=0 GOFLAGS=-mod=mod GOPROXY=off go test -vet=off -count=1 -overlay /verif/replays/C01/VHarnessRaceSwapSwap_3157514f_0/overlay.json -run ^TestVerifReplay_VHarnessRaceSwapSwap$ -v ./mint
+cd /tmp/seedrepo_C02f && VERIF_SCRIPT=/verif/replays/C01/VHarnessRaceSwapSwap_3157514f_0/script.json VERIF_RAW_SALT=0 GOFLAGS=-mod=mod GOPROXY=off go test -vet=off -count=1 -overlay /verif/replays/C01/VHarnessRaceSwapSwap_3157514f_0/overlay.json -run ^TestVerifReplay_VHarnessRaceSwapSwap$ -v ./mint
